@@ -399,6 +399,22 @@ theorem withIndex_kth_matrix {κ : Type} (rows columns : Nat) (cell : Nat × Nat
     rw [(colMajor_enumerates rows columns).start, Nat.zero_add, ← List.range_eq_range'] at this
     exact this
 
+/-- `WithIndex::source()` mid-iteration: the wrapper has no state of its own (the model's
+    with-index step runs on the wrapped iterator's state), so after `k` with-index calls the
+    wrapped iterator is exactly the iterator after `k` plain calls, and continuing on it yields
+    the remaining items `item k, item (k+1), …` — nothing skipped, nothing repeated. -/
+theorem withIndex_source_resumes {σ π β : Type} {next : σ → Outcome (Option β × σ)} {s0 : σ}
+    {total : Nat} {item : Nat → Option β} {state : Nat → σ}
+    (E : Enumerates next s0 total item state) (counter : σ → π) (k n : Nat) :
+    collect (withIndexNext counter next) k s0 =
+        .ok ((List.range k).map (fun j => (item j).map fun x => (counter (state j), x)), state k) ∧
+      collect next n (state k) = .ok ((List.range' k n).map item, state (k + n)) := by
+  constructor
+  · have := (E.withIndex counter).collect_from k 0
+    rw [E.start, Nat.zero_add, ← List.range_eq_range'] at this
+    exact this
+  · exact E.collect_from n k
+
 /-! ## Mutable iterators never hand out the same element twice; owning iterators move every
     value out once
 
